@@ -439,21 +439,28 @@ class Parser:
             c = args[0].txt[0]
             args[0].txt = args[0].txt[1:]
 
+        letter = ''
         if not c.strip():
             c = ' '.join(self.parms.accent_macros[tok.txt])
-        else:
-            if not ('a' <= c <= 'z' or 'A' <= c <= 'Z'):
-                return utils.latex_error('text-mode accent for non-letter',
-                                            tok.pos, self.latex, self.parms)
+        elif 'a' <= c <= 'z' or 'A' <= c <= 'Z':
             c = ('LATIN ' + ('SMALL' if c.islower() else 'CAPITAL')
                         + ' LETTER ' + c.upper() + ' WITH ' 
                         + self.parms.accent_macros[tok.txt][0])
+        elif c.isalpha():
+            # letter from a macro like \ae, \o or \l: use combining accent
+            letter = c
+            c = 'COMBINING ' + ' '.join(self.parms.accent_macros[tok.txt])
+        else:
+            return utils.latex_error('text-mode accent for non-letter',
+                                            tok.pos, self.latex, self.parms)
         try:
             u = unicodedata.lookup(c)
         except:
             return utils.latex_error('could not find UTF-8 character "' + c
                                     + '"', tok.pos, self.latex, self.parms)
-        return [defs.TextToken(tok.pos, u)] + args
+        if letter:
+            u = unicodedata.normalize('NFC', letter + u)
+        return [defs.TextToken(tok.pos, u, pos_fix=len(u) > 1)] + args
 
     #   open an environment
     #
